@@ -53,6 +53,7 @@ class Report:
         self.trusted_base = []
         self.extra = {}
         self.selftest = None
+        self.floor_errors = []
         self.t0 = time.time()
 
     # -- declaring
@@ -86,8 +87,9 @@ class Report:
         """Instance floor: fewer rule instances than were confirmed by hand is an analysis error."""
         self.counts['%s:%s' % (rule, what)] = measured
         if measured < minimum:
-            raise AnalysisError('%s: rule lost its instances: %s = %d < floor %d (anchor code moved or '
-                                'was restructured beyond what the rule recognises)' % (rule, what, measured, minimum))
+            # deferred: a definite violation found elsewhere in the same run takes precedence over exit 2
+            self.floor_errors.append('%s: rule lost its instances: %s = %d < floor %d (anchor code moved or '
+                                     'was restructured beyond what the rule recognises)' % (rule, what, measured, minimum))
 
 
 def load_known():
@@ -200,7 +202,15 @@ def finish(rep, replay=None):
             json.dump(ev, f, indent=1, sort_keys=True)
     print('%s: %d obligations, %d discharged, %d known findings, %d violations (%.2fs, tier %s)' % (
         pid, n, n - len(failed), len(kf), len(viol), time.time() - rep.t0, rep.tier))
-    return 1 if viol else 0
+    if viol:
+        for fe in rep.floor_errors:
+            print('%s note (instance floor): %s' % (pid, fe))
+        return 1
+    if rep.floor_errors:
+        for fe in rep.floor_errors:
+            print('ANALYSIS-ERROR property=%s %s' % (pid, fe))
+        return 2
+    return 0
 
 
 def run_property(pid, tier, seed, quiet=False):
